@@ -337,6 +337,7 @@ def run_mts_stub(tier: str, seed: int, model: str = "") -> Dict[str, Any]:
 # quick tier uses the entries flagged True
 MTS_CONFIGS: List[Tuple[str, bool]] = [
     ("connector-3x2-T3", True), ("lbf-5x2x1-T3", True), ("lbf-5-nonorm-pen-T2", True), ("maze-toy-T3", True),
+    ("connector-4x1-T4", True), ("lbf-5x1x1-T3", True),  # ONE agent: aggregation over an axis of length 1
     ("connector-4x2-T5", False), ("connector-rw5x3-T2", False), ("lbf-5-fov1-T2", False),
     ("lbf-6x3x2-grid-T2", False), ("snake-5x2-T3", False), ("cleaner-5x3x2-T3", False), ("tsp-4-sparse", False),
 ]
@@ -348,7 +349,7 @@ def run_mts(cfg_name: str, tier: str, seed: int, model: str = "") -> Dict[str, A
     cfg = catalog.BY_NAME[cfg_name]
     env = cfg.make()
     mon = MTSMonitor(env, cfg.family)
-    ex = Explorer(env, f"mts:{cfg_name}", PID, keys=cfg.keys(tier), monitors=[mon], max_depth=cfg.depth,
+    ex = Explorer(env, f"mts:{cfg_name}", PID, keys=cfg.keys(tier), monitors=[mon], max_depth=cfg.depth_for(tier),
                   max_states=3000 if tier == "quick" else 40000, seed=seed, ctor=cfg.ctor,
                   eager_budget_s=4.0, eager_max_paths=2)  # no wall-clock cap: coverage must not depend on load
     res = ex.run()
